@@ -52,7 +52,7 @@ class Noise(ast.NodeTransformer):
 
 
 
-from sa.variants import Flip, Guard, WhileTrue, DeMorgan  # noqa: E402
+from sa.variants import TRANSFORMS  # noqa: E402
 
 def main():
     mode, dst = sys.argv[1], sys.argv[2]
@@ -70,8 +70,8 @@ def main():
                     tree = Renamer().visit(tree)
                 elif mode == "wrap":
                     tree = Wrap().visit(tree)
-                elif mode in ("flip", "guard", "whiletrue", "demorgan"):
-                    tree = {"flip": Flip, "guard": Guard, "whiletrue": WhileTrue, "demorgan": DeMorgan}[mode]().visit(tree)
+                elif mode in TRANSFORMS:
+                    tree = TRANSFORMS[mode]().visit(tree)
                 elif mode == "noise":
                     has_log = any(isinstance(x, ast.Assign) and any(isinstance(t, ast.Name) and t.id == "log" for t in x.targets) for x in tree.body)
                     if has_log:
